@@ -182,6 +182,32 @@ def run_case(case):
     if other:
         out.label("bounds-of-other-numeric-type")
     abandoned = False
+    # In a quarter of the cases the handlers are impatient: every third executed event asks for the rest of the
+    # replication (start / a bounded run to the end) while the run is in progress.  That is refused - and a refused
+    # command changes nothing: the run in progress keeps its own bound.
+    import zlib
+    import json as _json
+    nag = {"n": 0, "accepted": []}
+    if zlib.crc32(_json.dumps(case, sort_keys=True).encode()) % 4 == 1:
+        out.label("refused-commands-from-handlers")
+
+        def impatient(m, seq, node):
+            nag["n"] += 1
+            if nag["n"] % 3:
+                return
+            sim_ = m.simulator
+            end_ = sim_.replication.end_sim_time
+            try:
+                if nag["n"] % 2:
+                    sim_.start()
+                elif nag["n"] % 4:
+                    sim_.run_up_to_including(end_)
+                else:
+                    sim_.run_up_to(end_)
+                nag["accepted"].append(nag["n"])
+            except DSOLError:
+                pass
+        h.model.on_exec = impatient
     try:
         if case.get("prior"):
             out.label("prior-replication=" + case["prior"])
@@ -297,6 +323,8 @@ def run_case(case):
             got = (sim.run_state.name, sim.replication_state.name)
             if got != want and not (may_refuse and err is not None and not ref.ended and got[0] in ("INITIALIZED", "STOPPED")):
                 out.fail("state-after-" + cpiece[0], dict(ctx, got=got, want=want))
+            if nag["accepted"]:
+                out.fail("command-accepted-while-running", dict(ctx, at_events=nag["accepted"][:4]))
             if out.disc:
                 break
         # (iii) invariants over the whole run
